@@ -266,10 +266,19 @@ pub fn c09(a: &Args) -> i32 {
                             finish_raw(&mut e, kind, want.len(), -1, compu, chunk, depth, &want, 0, 0);
                             out.push(&e); n_pulls += 1;
                             let (ok, equal) = match kind {
-                                "value" => { let r = svs::pull_value::<Vec<u16>>(&c, &res); (r.is_ok(), r.map(|v| v == produced(n).into_iter().map(|b| b as u16).collect::<Vec<u16>>()).unwrap_or(false)) }
+                                "value" => { let w: Vec<u16> = produced(n).into_iter().map(|b| b as u16).collect(); let r = svs::pull_value::<Vec<u16>>(&c, &res); let r2 = rt.block_on(svs::pull_value_async::<Vec<u16>, _>(&ac, &res));
+                                             (r.is_ok() && r2.is_ok(), r.map(|v| v == w).unwrap_or(false) && r2.map(|v| v == w).unwrap_or(false)) }
                                 "typed" => { let r = svs::pull_typed_slice::<f64>(&c, &res); let r2 = rt.block_on(svs::pull_typed_slice_async::<f64, _>(&ac, &res)); let w: Vec<f64> = (0..n).map(|i| i as f64 * 0.5).collect(); (r.is_ok() && r2.is_ok(), r.map(|v| v == w).unwrap_or(false) && r2.map(|v| v == w).unwrap_or(false)) }
-                                "complex" => { let r = svs::pull_complex_slice::<f32>(&c, &res); let w: Vec<(f32, f32)> = (0..n).map(|i| (i as f32, -(i as f32))).collect(); (r.is_ok(), r.map(|v| v.iter().map(|c| (c.re, c.im)).collect::<Vec<_>>() == w).unwrap_or(false)) }
-                                _ => { let r = svs::pull_to_vec(&c, &res); (r.is_ok(), r.map(|v| v == want).unwrap_or(false)) }
+                                "complex" => { let r = svs::pull_complex_slice::<f32>(&c, &res); let r2 = rt.block_on(svs::pull_complex_slice_async::<f32, _>(&ac, &res)); let w: Vec<(f32, f32)> = (0..n).map(|i| (i as f32, -(i as f32))).collect();
+                                               let same = |v: Vec<Complex<f32>>| v.iter().map(|c| (c.re, c.im)).collect::<Vec<_>>() == w;
+                                               (r.is_ok() && r2.is_ok(), r.map(&same).unwrap_or(false) && r2.map(&same).unwrap_or(false)) }
+                                _ => {
+                                    let r = svs::pull_to_vec(&c, &res);
+                                    // the two format-agnostic escape hatches
+                                    let r2 = svs::pull_consume(&c, &res, |rd| { let mut b = vec![]; rd.read_to_end(&mut b)?; Ok(b) });
+                                    let r3 = rt.block_on(svs::pull_consume_async(&ac, &res, |mut rd| { let mut b = vec![]; rd.read_to_end(&mut b)?; Ok(b) }));
+                                    (r.is_ok() && r2.is_ok() && r3.is_ok(), r.map(|v| v == want).unwrap_or(false) && r2.map(|v| v == want).unwrap_or(false) && r3.map(|v| v == want).unwrap_or(false))
+                                }
                             };
                             out.push(&json!({"ev": "pull", "via": format!("typed_puller_{kind}"), "producer": kind, "n": n, "fail": -1, "comp": compu, "chunk": chunk, "depth": depth, "ok": ok, "equal": equal, "got_len": 0}));
                             n_pulls += 1;
